@@ -810,6 +810,11 @@ func (m *ldMachine) apply(i int, op ldOp) {
 			m.nAucClosed += liqPre.aucs - a
 		}
 	}
+	if err != nil && op.K == "bid" && m.prop == "C10" && strings.HasPrefix(err.Error(), "panic in handler") {
+		// the handler gave up half way: a bid that would close the auction can then never be placed, and the auction
+		// never ends and distributes what it holds
+		m.fail("C10.bid-is-settled-or-refused-cleanly", "lend", "step %d: bid of %s on auction %d by user %d: %v", i, op.A, op.ID, op.U, err)
+	}
 	if err != nil {
 		if debugErrs {
 			e := err.Error()
@@ -907,6 +912,7 @@ type ldLiqSnap struct {
 	custody map[string]sdk.Int // auction module balance per asset denom
 	locked  int
 	aucs    int
+	bidID   uint64 // id counter of executed bids
 }
 
 func (m *ldMachine) liqSnap() *ldLiqSnap {
@@ -920,6 +926,7 @@ func (m *ldMachine) liqSnap() *ldLiqSnap {
 	}
 	s.locked = len(c.App.NewliqKeeper.GetLockedVaults(c.Ctx))
 	s.aucs = len(c.App.NewaucKeeper.GetAuctions(c.Ctx))
+	s.bidID = c.App.NewaucKeeper.GetUserBidID(c.Ctx)
 	return s
 }
 
@@ -1028,6 +1035,12 @@ func (m *ldMachine) liqObserveLend(i int, op ldOp, pre *ldLiqSnap, sweep bool) {
 				}
 			}
 		}
+	}
+	if len(seizedByDenom) > 0 && c.App.NewaucKeeper.GetUserBidID(c.Ctx) != pre.bidID {
+		// an automatic limit-order bid was executed in the same block: it takes collateral out of (and pays debt
+		// token into) the same account, so the account's change is not the seizures' alone
+		m.r.Class("seizure-custody-not-judged:automatic-bid-in-same-block")
+		seizedByDenom = nil
 	}
 	for d, want := range seizedByDenom {
 		got := c.ModBal(auctypes.ModuleName, d).Sub(pre.custody[d])
